@@ -29,7 +29,25 @@ def subs_names(ecu):
     return out
 
 
+def _finish(sc, sim):
+    kk = sc.get("key_k", 7)
+    CLIENT, SERVER, INTR = sc.get("addrs", ADDRS)
+    return {"cfg": {"C": {"x": 0}}, "ev": sim.trace, "expect": {"x": 0}, "sec": bool(sc.get("seed_key")), "key_k": kk,
+            "client_k": sc.get("client_k", kk), "srv": SERVER, "expect_idle": bool(sc.get("expect_idle", True)),
+            "self_intr": any(i.get("sa", INTR) == CLIENT for i in sc.get("intruder", [])), "meta": {"scenario": sc}}, sim
+
+
 def run(sc):
+    try:
+        with vt.watchdog():
+            return _run(sc)
+    except vt.Runaway as e:          # e.g. a seed / key ping-pong that never ends
+        sim = vt.CUR[0]
+        sim.hang(e)
+        return _finish(sc, sim)
+
+
+def _run(sc):
     sim = vt.Sim(seed=sc.get("rseed", 0))
     CLIENT, SERVER, INTR = sc.get("addrs", ADDRS)
     lat = sc.get("lat", [700, 900])
@@ -104,7 +122,7 @@ def run(sc):
                                        r.get("timeout", 3000000) / 1e6)
                     sim.log({"ev": "ret", "node": "S", "op": "respond", "ret": list(ret) if ret is not None else [], "none": ret is None})
                 except BaseException as e:
-                    if isinstance(e, (vt._Yield, vt.Spin)):
+                    if isinstance(e, (vt._Yield, vt.Spin, vt.Runaway)):
                         raise
                     sim.log({"ev": "ret", "node": "S", "op": "respond", "exc": type(e).__name__, "msg": str(e)[:200]})
                 finally:
@@ -174,7 +192,7 @@ def run(sc):
             sim.log({"ev": "ret", "node": "C", "op": "dm14_" + o["op"], "ret_bytes": rb, "none": r is None,
                      "pyret": repr(r)[:120]})
         except BaseException as e:
-            if isinstance(e, (vt._Yield, vt.Spin)):
+            if isinstance(e, (vt._Yield, vt.Spin, vt.Runaway)):
                 raise
             import re
             m = re.search(r"error: (0x[0-9a-fA-F]+)", str(e))
@@ -191,9 +209,7 @@ def run(sc):
         sim.touch(nodes[nm][0])
     sim.flush_abs()
     sim.log({"ev": "end", "node": "C"})
-    return {"cfg": {"C": {"x": 0}}, "ev": sim.trace, "expect": {"x": 0}, "sec": bool(sc.get("seed_key")), "key_k": kk,
-            "client_k": sc.get("client_k", kk), "srv": SERVER, "expect_idle": bool(sc.get("expect_idle", True)),
-            "self_intr": any(i.get("sa", INTR) == CLIENT for i in sc.get("intruder", [])), "meta": {"scenario": sc}}, sim
+    return _finish(sc, sim)
 
 
 if __name__ == "__main__":
